@@ -8,6 +8,11 @@ ids = [p['id'] for p in props]
 
 # id -> (category, technique, level text, level note, design ref)
 CHECKS = {
+ 'C05': ('exploration',
+   'offline mesh checker (weld + directed-edge balance + signed volume) over real renders of lattice-lookup fields; lattice learned by a recording pass',
+   'Drives the real MarchingCubesUniform/Octree through render.ToTriangles with harness-prescribed corner values: all 256 single-cell configurations and all 3x4096 face-adjacent pairs (sign space enumerated exhaustively, magnitudes sampled incl. exact zeros and sub-epsilon), random dense fields and analytic CSG scenes. Each mesh is welded at 1e-6 cell and checked for directed-edge balance, identical-vertex triangles and positive signed volume.',
+   'Sign-configuration space is exhaustive; corner magnitudes, scenes, resolutions are sampled. Lattice structure is learned, not assumed; an unrecognised lattice makes the run inconclusive.',
+   'DESIGN.md 2/C05'),
  'C16': ('exploration',
    'runtime differential monitor: pruned Evaluate vs EvaluateSlow with operand-call counting wrappers; clamp/farthest-corner oracle for MinMaxDist2',
    'Executes the real Box2/Box3.MinMaxDist2, Interval.Overlap and (*UnionSDF2).Evaluate on PRNG-generated boxes, points stratified over all 9/27 position classes (with class boundaries) and unions of 2-12 exact operands under 5 blend kinds, comparing each call with an independent oracle. Held-on-what-was-explored, not a proof.',
